@@ -505,3 +505,10 @@ func (s *Sim) WatcherStats() []WatcherStats {
 }
 
 var _ = errors.New
+
+// QueuedEvents returns the events waiting for the consumer of a simulated watcher (calibration self-test).
+//
+//go:norace
+func (w *Watcher) QueuedEvents() []fsnotify.Event {
+	return append([]fsnotify.Event(nil), w.queue...)
+}
